@@ -160,10 +160,10 @@ def soups(length, prefix):
         yield tuple(prefix) + rest
 
 
-# max token-string length per (tier, version, context index);  see README in c13.py
+# max token-string length per (tier, version, context index)
 SOUP_K = {
-    "quick": {("2.x", 0): 3, ("2.x", 1): 3, ("1.0", 0): 2, ("1.0", 1): 3},
-    "thorough": {("2.x", 0): 4, ("2.x", 1): 4, ("1.0", 0): 3, ("1.0", 1): 3},
+    "quick": {("2.x", 0): 3, ("2.x", 1): 3, ("1.0", 0): 3, ("1.0", 1): 3},
+    "thorough": {("2.x", 0): 4, ("2.x", 1): 4, ("1.0", 0): 4, ("1.0", 1): 4},
 }
 
 
